@@ -163,7 +163,10 @@ class Scenario:
         self.config0 = dep.read('config')
         self.rr = RefReader(self.config0)
         (dep.repo / 'other').mkdir()
-        (dep.repo / 'other' / 'keep').write_bytes(b'foreign')
+        # objects that are not the tool's: outside the chunk and snapshot areas, some with names that look like its own temporaries
+        self.outside = {'other/keep': b'foreign', 'other/state.tmp': b'somebody else\'s file', 'notes.tmp': b'kept by the admin'}
+        for nm_, data_ in self.outside.items():
+            (dep.repo / nm_).write_bytes(data_)
         nfam = 1
         for i in range(1, rng.choice([2, 3, 3])):
             if not self.encrypted:
@@ -391,7 +394,7 @@ class Scenario:
 
     def frame_check(self, what, user, before, after, allowed_gone):
         """objects of other families, config and foreign objects untouched"""
-        if self.dep.read('config') != self.config0 or 'other/keep' not in after:
+        if self.dep.read('config') != self.config0 or not self.outside_ok():
             self.v('config_touched', f'{what} modified config or an object outside the chunk/snapshot areas')
         for n, meta in before.items():
             if n in allowed_gone:
@@ -418,6 +421,15 @@ class Scenario:
             gone = [p for p in s['chunk_paths'] if p not in after]
             if gone:
                 self.v('referenced_chunk_missing', f'after {what} a listed snapshot misses {len(gone)} of its chunks', {'snapshot': n[:8]})
+                return False
+        return True
+
+    def outside_ok(self):
+        for nm_, data_ in getattr(self, 'outside', {}).items():
+            try:
+                if (self.dep.repo / nm_).read_bytes() != data_:
+                    return False
+            except OSError:
                 return False
         return True
 
@@ -661,7 +673,7 @@ class Scenario:
         # ---- C03: the repository is consistent and usable
         self.whole_check(what, after, temps)
         self.restorable_check(what, after)
-        if self.dep.read('config') != self.config0 or 'other/keep' not in after:
+        if self.dep.read('config') != self.config0 or not self.outside_ok():
             self.v('config_touched', f'{what} modified config or an object outside the chunk/snapshot areas')
         # a new, unknown snapshot object can only be the one of the interrupted snapshot: it must then be complete
         for n in after:
@@ -1075,6 +1087,8 @@ def scan_fault_probe(ctx, rep, mine):
     # ... or one snapshot object cannot be read, whatever is tried (this client has no cached copy of it)
     kept = sorted(sc.present(base))[1:]
     jobs += [(command, sc.snaps[n]['path'], 'unreadable') for command in ('clean', 'delete') for n in kept[:2]]
+    # ... and the two commands undisturbed (clean has the garbage of the killed snapshot to collect)
+    jobs += [('clean', -1, 'nothing'), ('delete', -1, 'nothing')]
 
     def one(job):
         command, k, errno_name = job
@@ -1088,15 +1102,24 @@ def scan_fault_probe(ctx, rep, mine):
             inject = [{'fn': 'scandir_iter', 'k': k, 'after': 1, 'action': 'EIO'}]
         elif errno_name == 'unreadable':
             inject = [{'fn': 'read', 'path_contains': k.replace('/', os.sep), 'action': 'EIO'}]
+        if errno_name == 'nothing':
+            inject = None
         res = dep2.run(*((command,) if command == 'clean' else (command, '--yes', victim)), user=u, inject=inject)
         after, _ = dep2.disk()
+        # what is not the tool's (outside the chunk and snapshot areas) is as it was
+        touched = [nm_ for nm_, data_ in getattr(sc, 'outside', {}).items()
+                   if not (copy / nm_).is_file() or (copy / nm_).read_bytes() != data_]
         shutil.rmtree(copy, ignore_errors=True)
-        return job, res, after
+        return job, res, (after, touched)
     with ThreadPoolExecutor(max_workers=8) as ex:
         results = list(ex.map(one, jobs))
     n = len(results)
-    for (command, k, errno_name), res, after in results:
+    for (command, k, errno_name), res, (after, touched) in results:
         what = f'{command} while directory scan #{k} fails once with {errno_name}'
+        if errno_name == 'nothing':
+            what = f'{command} (undisturbed, with the garbage of a killed snapshot in the repository)'
+        if touched:
+            sc.v('config_touched', f'{what} removed or modified {touched}: objects outside the chunk and snapshot areas')
         if errno_name == 'mid-EIO':
             what = f'{command} while directory scan #{k} fails with EIO after its first entry'
         elif errno_name == 'unreadable':
